@@ -156,11 +156,15 @@ class Reporter:
             pass
         except FileNotFoundError:
             pass
-        os.makedirs(EVIDENCE_DIR, exist_ok=True)
-        tmp = os.path.join(EVIDENCE_DIR, f".{self.pid}.tmp")
+        evdir = EVIDENCE_DIR
+        if os.path.realpath(os.environ.get("VERIF_REPO", "/repo")) != "/repo":
+            # mutation self-test against a scratch worktree: never overwrite the evidence of /repo
+            evdir = os.path.join(os.environ.get("TMPDIR", "/tmp"), "verif-selftest-evidence")
+        os.makedirs(evdir, exist_ok=True)
+        tmp = os.path.join(evdir, f".{self.pid}.tmp")
         with open(tmp, "w") as fh:
             json.dump(ev, fh, indent=1, sort_keys=True, default=repr)
-        os.replace(tmp, os.path.join(EVIDENCE_DIR, f"{self.pid}.json"))
+        os.replace(tmp, os.path.join(evdir, f"{self.pid}.json"))
         if self.violations:
             # every violation key of this run (replay files are written for the first MAX_REPORTED only)
             os.makedirs(REPLAY_DIR, exist_ok=True)
